@@ -705,7 +705,13 @@ class Interp(object):
       except (IndexError, TypeError) as e:
         self.raise_(type(e), *e.args, node=node)
     if isinstance(base, dict):
-      if is_symbolic(idx): self.unsupported("symbolic key into concrete dict", node)
+      if is_symbolic(idx):
+        if self.spec: self.unsupported("symbolic key into concrete dict in a spec", node)
+        for k, v in base.items():
+          e = self.eq(k, idx)
+          if e is False: continue
+          if e is True or self.ctx.decide(e): return v
+        self.raise_(KeyError, idx, node=node)
       try:
         return base[idx]
       except (KeyError, TypeError) as e:
